@@ -19,6 +19,7 @@ import zipfile
 from mdsim import core
 from mdsim.props import _ds
 from mdsim.seams import disk as sdisk
+from mdsim.seams import mem as smem
 
 PROP = "C11"
 LEVEL = "fault_enumeration"
@@ -28,7 +29,7 @@ JOB_TIMEOUT = 900.0
 CHUNK = {"quick": 36, "thorough": 120}
 COMPONENTS = {
     "real": ["MazeDataset.from_config / read / save", "MazeDataset.generate + filters", "zanj.ZANJ.save/read, LoadedZANJ", "stdlib zipfile (deflate, CRC, headers)", "real scratch filesystem for path/exists logic"],
-    "stub": ["archive file object (FaultyFile behind zanj's zipfile namespace)", "time.time/localtime seen by zanj and zipfile (SimClock)"],
+    "stub": ["archive file object (FaultyFile behind zanj's zipfile namespace)", "time.time/localtime seen by zanj and zipfile (SimClock)", "contents of np.empty() memory in the dataset serialiser (seed-derived pattern)"],
 }
 RULE = (
     "one evaluation = one scenario: (request configuration, knobs, one fault or a multi-fault history) -> request in a pristine process "
@@ -74,7 +75,7 @@ def st_request(cfgspec, knobs, base_dir, plan, record):
 
     _knobs(knobs)
     dk = sdisk.SimDisk(plan, record_data=record)
-    with sdisk.Installed(dk, _clock(knobs)):
+    with sdisk.Installed(dk, _clock(knobs)), smem.Installed(knobs.get("mem", 0)):
         try:
             cfg = _ds.make_cfg(cfgspec)
             out = _ds.outcome_of(lambda: MazeDataset.from_config(cfg, local_base_path=base_dir, zanj=_zanj(knobs)))
@@ -105,7 +106,7 @@ def st_make_other(kind, knobs, base_dir):
     os.makedirs(base_dir, exist_ok=True)
     p = os.path.join(base_dir, "other.zanj")
     dk = sdisk.SimDisk(None)
-    with sdisk.Installed(dk, _clock(knobs)):  # clock seam: the foreign archive's bytes are a function of the seed too
+    with sdisk.Installed(dk, _clock(knobs)), smem.Installed(knobs.get("mem", 0)):  # clock/memory seams: the foreign archive's bytes are a function of the seed too
         if kind == "foreign-object":
             ZANJ().save({"hello": "world", "arr": np.arange(300)}, p)
         else:
@@ -504,6 +505,7 @@ def rand_knobs(rng: random.Random, n_mazes: int) -> dict:
         "threshold": thr,
         "zanj": {"compress": rng.random() < 0.6, "external_array_threshold": rng.choice([256, 256, 16, 0])},
         "clock": {"t0": float(rng.randrange(400_000_000, 4_000_000_000)), "steps": [rng.choice([0.0, 1.0, -3600.0, 86400.0 * 365, 0.5, -1.0]) for _ in range(4)]},
+        "mem": rng.choice([0, 255, rng.randrange(1, 2**31)]),  # what uninitialised memory (np.empty padding) contains
     }
 
 
@@ -679,7 +681,7 @@ def shrink(spec: dict, result: dict):
     if R["maze_ctor"] != "gen_dfs":
         yield dict(spec, cfg=dict(R, maze_ctor="gen_dfs", maze_ctor_kwargs={}))
     k = spec["knobs"]
-    for kk, val in (("threshold", 100), ("zanj", {"compress": True, "external_array_threshold": 256}), ("clock", {"t0": 1.7e9, "steps": [0.0]})):
+    for kk, val in (("threshold", 100), ("zanj", {"compress": True, "external_array_threshold": 256}), ("clock", {"t0": 1.7e9, "steps": [0.0]}), ("mem", 0)):
         if k.get(kk) != val:
             yield dict(spec, knobs=dict(k, **{kk: val}))
     if spec["scenarios"] and spec["scenarios"][0]["kind"] == "history":
